@@ -3,13 +3,58 @@
 use std::time::Duration;
 
 // ---- stand-ins (trusted; listed in unit.toml) ----------------------------------------------------------------
+use core::cell::{Cell, RefCell};
+use std::sync::Arc;
+use anyhow::anyhow;
+#[macro_export] macro_rules! __noop { ($($t:tt)*) => {{}} }
+pub mod tracing { pub use crate::__noop as error; pub use crate::__noop as info; pub use crate::__noop as warn; pub use crate::__noop as debug; }
+
 #[derive(Clone, Copy, Debug, PartialEq, Eq, PartialOrd, Ord)]
 pub struct Tai64(pub u64);
-pub struct Instant { elapsed: Duration }
-impl Instant { pub fn elapsed(&self) -> Duration { self.elapsed } }
+#[derive(Clone, Copy, Debug, PartialEq, Eq, PartialOrd, Ord)]
+pub struct BlockHeight(pub u32);
+/// a point on the monotonic clock: `tick` orders instants, `elapsed` is what Instant::elapsed() answers (arbitrary)
+#[derive(Clone, Copy, Debug, PartialEq, Eq, PartialOrd, Ord)]
+pub struct Instant { pub tick: u64, pub elapsed: Duration }
+thread_local! { }
+static mut NOW_TICK: u64 = 0;
+impl Instant {
+    pub fn elapsed(&self) -> Duration { self.elapsed }
+    pub fn now() -> Instant { Instant { tick: unsafe { NOW_TICK }, elapsed: Duration::ZERO } }
+}
 pub trait GetTime { fn now(&self) -> Tai64; }
 pub struct Clock { now: Tai64 }
 impl GetTime for Clock { fn now(&self) -> Tai64 { self.now } }
+
+// ports of produce_block: recording mocks that answer Ok / Err as the harness chose
+#[derive(Clone, Copy, Debug, PartialEq, Eq)] pub struct Block { pub height: BlockHeight, pub time: Tai64 }
+#[derive(Clone, Copy, Debug, PartialEq, Eq)] pub struct Consensus(pub u64);
+pub struct SealedBlock { pub entity: Block, pub consensus: Consensus }
+pub struct Changes;
+pub struct ExecutionResult { pub block: Block, pub skipped_transactions: Vec<(u64, u64)>, pub tx_status: u8, pub events: u8 }
+pub struct UncommittedExecutionResult<C>(pub ExecutionResult, pub C);
+impl<C> From<UncommittedExecutionResult<C>> for (ExecutionResult, C) { fn from(u: UncommittedExecutionResult<C>) -> Self { (u.0, u.1) } }
+pub struct ImportResult { pub sealed: SealedBlock }
+impl ImportResult { pub fn new_from_local(sealed: SealedBlock, _tx_status: u8, _events: u8) -> Self { ImportResult { sealed } } }
+pub struct Uncommitted<R, C>(pub R, pub C);
+impl<R, C> Uncommitted<R, C> { pub fn new(r: R, c: C) -> Self { Uncommitted(r, c) } }
+pub enum TransactionsSource { TxPool, SpecificTransactions(u8) }
+/// one shared event log: 1 = produce, 2 = seal, 3 = import
+pub struct Log { pub events: RefCell<[u8; 4]>, pub n: Cell<usize> }
+impl Log { pub fn push(&self, e: u8) { let k = self.n.get(); if k < 4 { self.events.borrow_mut()[k] = e; } self.n.set(k + 1); } }
+pub struct Signer { pub available: bool, pub seal_fails: bool, pub sealed: Cell<Option<Block>>, pub log: Arc<Log> }
+impl Signer {
+    pub fn is_available(&self) -> bool { self.available }
+    pub async fn seal_block(&self, b: &Block) -> anyhow::Result<Consensus> { self.log.push(2); self.sealed.set(Some(*b)); if self.seal_fails { Err(anyhow!("seal")) } else { Ok(Consensus(b.height.0 as u64 ^ 0xabc)) } }
+}
+pub struct Importer { pub fails: bool, pub committed: Cell<Option<(Block, Consensus)>>, pub log: Arc<Log> }
+impl Importer {
+    pub async fn commit_result(&self, r: Uncommitted<ImportResult, Changes>) -> anyhow::Result<()> {
+        self.log.push(3); self.committed.set(Some((r.0.sealed.entity, r.0.sealed.consensus)));
+        if self.fails { Err(anyhow!("import")) } else { Ok(()) }
+    }
+}
+pub struct Producer { pub fails: bool, pub asked: Cell<Option<(BlockHeight, Tai64)>>, pub log: Arc<Log> }
 
 //@ extract crates/services/consensus_module/poa/src/config.rs enum Trigger keep_attrs=1
 //@ end
@@ -17,11 +62,21 @@ impl GetTime for Clock { fn now(&self) -> Tai64 { self.now } }
 //@ extract crates/services/consensus_module/poa/src/service.rs enum RequestType
 //@ end
 
-pub struct MainTask<C> { last_timestamp: Tai64, last_block_created: Instant, trigger: Trigger, clock: C }
+pub struct MainTask<C> { signer: Arc<Signer>, block_producer: Producer, block_importer: Importer, last_height: BlockHeight, last_timestamp: Tai64, last_block_created: Instant, trigger: Trigger, clock: C }
 
 impl<C: GetTime> MainTask<C> {
 //@ extract crates/services/consensus_module/poa/src/service.rs MainTask::next_time
 //@ end
+//@ extract crates/services/consensus_module/poa/src/service.rs MainTask::produce_block
+//@ end
+    // contract of signal_produce_block (block producer port + timeout + sleep): asked once, answers a block for exactly the
+    // requested height and time, or an error
+    async fn signal_produce_block(&self, height: BlockHeight, block_time: Tai64, _source: TransactionsSource, _deadline: Instant) -> anyhow::Result<UncommittedExecutionResult<Changes>> {
+        self.block_producer.log.push(1);
+        self.block_producer.asked.set(Some((height, block_time)));
+        if self.block_producer.fails { return Err(anyhow!("produce")) }
+        Ok(UncommittedExecutionResult(ExecutionResult { block: Block { height, time: block_time }, skipped_transactions: Vec::new(), tx_status: 0, events: 0 }, Changes))
+    }
 }
 
 //@ extract crates/services/consensus_module/poa/src/service.rs increase_time
@@ -67,7 +122,7 @@ fn c24_next_time() {
     let cfg = any_duration();
     let trigger = match trig_kind { 0 => Trigger::Instant, 1 => Trigger::Never, 2 => Trigger::Interval { block_time: cfg }, _ => Trigger::Open { period: cfg } };
     let elapsed = any_duration();
-    let task = MainTask { last_timestamp: Tai64(last), last_block_created: Instant { elapsed }, trigger, clock: Clock { now: Tai64(now) } };
+    let task = mk_task(0, Tai64(last), Instant { tick: 0, elapsed }, trigger, Tai64(now), true, false, false, false);
     let manual: bool = kani::any();
     let r = task.next_time(if manual { RequestType::Manual } else { RequestType::Trigger });
     kani::cover!(r.is_ok() && !manual && trig_kind == 3 && now < last, "[C24.poa-time.next_time.cover-clock-behind-open-trigger]");
@@ -88,6 +143,59 @@ fn c24_next_time() {
         if !manual && trig_kind != 3 && now > last {
             kani::assert(t == now, "[C24.poa-time.next_time.trigger-with-clock-ahead-uses-now]");
         }
+    }
+    core::mem::forget(r);
+}
+
+#[cfg(kani)]
+fn mk_task(h: u32, last: Tai64, created: Instant, trigger: Trigger, now: Tai64, available: bool, pf: bool, sf: bool, imf: bool) -> MainTask<Clock> {
+    let log = Arc::new(Log { events: RefCell::new([0; 4]), n: Cell::new(0) });
+    MainTask { signer: Arc::new(Signer { available, seal_fails: sf, sealed: Cell::new(None), log: log.clone() }),
+        block_producer: Producer { fails: pf, asked: Cell::new(None), log: log.clone() },
+        block_importer: Importer { fails: imf, committed: Cell::new(None), log },
+        last_height: BlockHeight(h), last_timestamp: last, last_block_created: created, trigger, clock: Clock { now } }
+}
+
+// produce_block: only blocks whose timestamp is not below the last block's are produced; the block is produced for the
+// requested height and time, sealed, then imported - in that order, each once; height and timestamp advance exactly on
+// success and are untouched by any failure (missing key, stale timestamp, producer, signer or importer error).
+//@ harness kind=proof tier=quick timeout=600 extra="-Z async-lib --default-unwind 3"
+#[cfg(kani)]
+#[kani::proof]
+fn c24_produce_block() {
+    let (h0, t0, h, t): (u32, u64, u32, u64) = (kani::any(), kani::any(), kani::any(), kani::any());
+    let trig_kind: u8 = kani::any();
+    kani::assume(trig_kind <= 3);
+    let cfg = any_duration();
+    let trigger = match trig_kind { 0 => Trigger::Instant, 1 => Trigger::Never, 2 => Trigger::Interval { block_time: cfg }, _ => Trigger::Open { period: cfg } };
+    let (available, pf, sf, imf): (bool, bool, bool, bool) = (kani::any(), kani::any(), kani::any(), kani::any());
+    let created0 = Instant { tick: kani::any(), elapsed: Duration::ZERO };
+    unsafe { NOW_TICK = kani::any(); }
+    let mut task = mk_task(h0, Tai64(t0), created0, trigger, Tai64(kani::any()), available, pf, sf, imf);
+    let deadline = Instant { tick: kani::any(), elapsed: Duration::ZERO };
+    let r = kani::block_on(task.produce_block(BlockHeight(h), Tai64(t), TransactionsSource::TxPool, deadline));
+    let ok = r.is_ok();
+    let log = task.block_importer.log.clone();
+    let n = log.n.get();
+    let ev = *log.events.borrow();
+    kani::cover!(ok, "[C24.poa-time.produce.cover-produced]");
+    kani::cover!(!ok && available && t >= t0 && !pf && !sf && imf, "[C24.poa-time.produce.cover-import-failure]");
+    kani::assert(ok == (available && t >= t0 && !pf && !sf && !imf), "[C24.poa-time.produce.succeeds-iff-key-available-timestamp-not-decreasing-and-all-ports-succeed]");
+    // nothing is asked of any port unless the key is available and the timestamp does not go backwards
+    kani::assert((available && t >= t0) || n == 0, "[C24.poa-time.produce.stale-timestamp-or-missing-key-rejected-before-any-port-call]");
+    // order: produce, then seal, then import; each at most once; import only of a sealed block
+    kani::assert(n <= 3 && (n < 1 || ev[0] == 1) && (n < 2 || ev[1] == 2) && (n < 3 || ev[2] == 3), "[C24.poa-time.produce.block-is-produced-then-sealed-then-imported-each-once]");
+    if n >= 1 { kani::assert(task.block_producer.asked.get() == Some((BlockHeight(h), Tai64(t))), "[C24.poa-time.produce.producer-asked-for-the-requested-height-and-time]"); }
+    if n >= 3 {
+        let sealed = task.signer.sealed.get();
+        let committed = task.block_importer.committed.get();
+        kani::assert(sealed == Some(Block { height: BlockHeight(h), time: Tai64(t) }) && committed.map(|c| c.0) == sealed && committed.map(|c| c.1) == Some(Consensus(h as u64 ^ 0xabc)), "[C24.poa-time.produce.imported-block-is-the-produced-block-with-its-seal]");
+    }
+    // the task's notion of the chain tip moves exactly on success
+    if ok {
+        kani::assert(task.last_height == BlockHeight(h) && task.last_timestamp == Tai64(t), "[C24.poa-time.produce.height-and-timestamp-advance-to-the-committed-block]");
+    } else {
+        kani::assert(task.last_height == BlockHeight(h0) && task.last_timestamp == Tai64(t0) && task.last_block_created == created0, "[C24.poa-time.produce.failure-does-not-advance-height-or-timestamp]");
     }
     core::mem::forget(r);
 }
